@@ -144,6 +144,13 @@ func RegisterCore(p *Program) {
 		in.sched.explore = a[0].(*Term).IsTrue()
 		return nil
 	}
+	I["vp:vpSchedExploreFine"] = func(in *Interp, fr *frame, a []Value) Value {
+		n := in.concInt(a[0])
+		in.sched.explore = n > 0
+		in.sched.fine = n > 0
+		in.sched.preemptBudget = n
+		return nil
+	}
 	I["vp:vpYield"] = func(in *Interp, fr *frame, a []Value) Value {
 		g := in.sched.cur
 		in.sched.yield(g)
@@ -158,6 +165,42 @@ func RegisterCore(p *Program) {
 		ok := in.sharedWrites == 0
 		in.writeMark = 0
 		return in.ts.Bool(ok)
+	}
+	I["os/signal.Notify"] = func(in *Interp, fr *frame, a []Value) Value {
+		in.env.sigChans = append(in.env.sigChans, a[0].(*ChanObj))
+		return nil
+	}
+	I["os/signal.Stop"] = func(in *Interp, fr *frame, a []Value) Value { return nil }
+	// vpSignalHUP delivers SIGHUP to every registered channel (non-blocking, like the runtime)
+	I["vp:vpSignalHUP"] = func(in *Interp, fr *frame, a []Value) Value {
+		for _, ch := range in.env.sigChans {
+			sig := Iface{T: in.namedType("syscall", "Signal"), V: in.ts.Const(64, 1)}
+			in.trySend(ch, sig)
+		}
+		in.sched.maybeYield()
+		return nil
+	}
+	// vpSettle lets every other goroutine run until it blocks (the agent becomes idle)
+	I["vp:vpSettle"] = func(in *Interp, fr *frame, a []Value) Value {
+		in.sched.settle()
+		return nil
+	}
+	// vpAwait(ch) receives from ch; returns false instead of blocking forever when nothing can
+	// ever send (the agent is wedged)
+	I["vp:vpAwait"] = func(in *Interp, fr *frame, a []Value) (res Value) {
+		ch := a[0].(*ChanObj)
+		defer func() {
+			if r := recover(); r != nil {
+				if pe, ok := r.(pathEnd); ok && pe.reason == "wedge" {
+					in.env.extra["wedge"] = pe.msg
+					res = in.ts.False
+					return
+				}
+				panic(r)
+			}
+		}()
+		in.chanRecv(ch, types.Typ[types.Bool])
+		return in.ts.True
 	}
 	I["vp:vpTier"] = func(in *Interp, fr *frame, a []Value) Value { return in.intConst(int64(Tier)) }
 
